@@ -1,6 +1,65 @@
-import SR.Drv.Loop
-/-! Driver commands for C15 (stub). -/
+import SR.Drv.C06
+/-! Driver commands for C15 (all commands of C06 are available too; `graph` accepts wrapped actors).
+Model side: `wrap-h` — one handler of an actor under a stack of adapters (or of the scripted client).
+Oracle side (implementation against itself, as the property is stated): `o-handler` — the wrapped handler's
+result is the unwrapped one's with the state re-tagged, and the wrapped actor saw the same arguments;
+`o-iso` — the walk of the wrapped system is the lift of the walk of the unwrapped one; `o-vec` — the scripted
+client has sent exactly `script.take (min (k+1) len)` after `k` received messages. -/
 namespace SR.Drv.C15
+open SR SR.Actor SR.Actor.Codec
+
+def ofCmd : Cmd → SExp
+  | .send d m => .list [.atom "s", SExp.ofNat d, SExp.ofNat m]
+  | .setTimer t => .list [.atom "t", SExp.ofNat t]
+  | .cancelTimer t => .list [.atom "c", SExp.ofNat t]
+  | .chooseRandom k cs => .list (.atom "r" :: SExp.ofNat k :: cs.map SExp.ofNat)
+
+def ofHRes : HRes U → String
+  | .panic => "panic"
+  | .ok ns cmds => toString (SExp.list [match ns with | none => .atom "-" | some u => ofU u, SExp.ofList ofCmd cmds])
+
+/-- apply a tag path (outermost first) to a state text -/
+def tagSx (path : List String) (inner : SExp) : SExp :=
+  path.foldr (fun t acc => .list [.atom (if t == "O" then "L" else t), acc]) inner
+
+def liftRes (path : List String) : SExp → SExp
+  | .list [.atom "-", cmds] => .list [.atom "-", cmds]
+  | .list [ns, cmds] => .list [tagSx path ns, cmds]
+  | x => x
+
 def handle : Drv.Handler
-  | _, _ => none
+  | "wrap-h", [actor, st, ev] => do
+    let a ← actor? actor
+    match ev with
+    | .list [.atom "start", id] => do
+      let r := a.start (← id.nat?)
+      pure (toString (SExp.list [ofU r.1, SExp.ofList ofCmd r.2]))
+    | .list [.atom "msg", id, src, m] => do
+      pure (ofHRes (a.msg (← id.nat?) (← ustate? st) (← src.nat?) (← m.nat?)))
+    | .list [.atom "timeout", id, t] => do pure (ofHRes (a.timeout (← id.nat?) (← ustate? st) (← t.nat?)))
+    | .list [.atom "random", id, r] => do pure (ofHRes (a.random (← id.nat?) (← ustate? st) (← r.nat?)))
+    | _ => none
+  | "o-handler", [path, resU, resW, logU, logW] => do
+    let path ← path.listOf? SExp.str?
+    pure (if liftRes path resU != resW then s!"wrapped handler result {resW} is not the re-tagged unwrapped result {liftRes path resU}"
+      else if logU != logW then s!"wrapped actor was invoked with {logW}, unwrapped with {logU}"
+      else "ok")
+  | "o-iso", [wraps, statesU, recsU, statesW, recsW] => do
+    let wraps ← wraps.listOf? (SExp.listOf? SExp.str?)
+    let su ← statesU.list?; let sw ← statesW.list?
+    let lifted := su.map (fun s => match s with
+      | .list (.list actors :: rest) =>
+        SExp.list (.list (actors.zipIdx.map (fun p => tagSx (wraps.getD p.2 []) p.1)) :: rest)
+      | x => x)
+    pure (if lifted != sw then "states of the wrapped system are not the lifted states of the unwrapped one"
+      else if recsU != recsW then "transitions of the wrapped system differ from those of the unwrapped one"
+      else "ok")
+  | "o-vec", [script, k, sends] => do
+    let script ← script.listOf? pair?
+    let k ← k.nat?
+    let sends ← sends.listOf? pair?
+    pure (if sends == script.take (min (k + 1) script.length) then "ok"
+      else s!"after {k} messages the client has sent {sends.length} entries, expected the first {min (k + 1) script.length} of its script")
+  | c, args => C06.handle c args
+
 end SR.Drv.C15
